@@ -1,10 +1,8 @@
 
 from __future__ import annotations
 
-import re
 from collections.abc import Iterable, Sequence
 from dataclasses import dataclass
-from re import Pattern
 
 __all__ = ['ListEntry', 'ListTree']
 
@@ -82,14 +80,11 @@ class ListTree:
 
     """
 
-    _wildcards = re.compile(r'([\*\%])')
-
-    __slots__ = ['_delimiter', '_no_delimiter', '_root', '_marked']
+    __slots__ = ['_delimiter', '_root', '_marked']
 
     def __init__(self, delimiter: str) -> None:
         super().__init__()
         self._delimiter = delimiter
-        self._no_delimiter = '[^' + re.escape(delimiter) + ']*?'
         self._root = _TreeNode('')
         self._marked: dict[str, bool] = {}
 
@@ -191,18 +186,40 @@ class ListTree:
         for entry in self._iter(self._root, ''):
             yield entry
 
-    def _get_pattern(self, query: str) -> tuple[Pattern[str], Pattern[str]]:
-        pattern_parts: list[str] = []
-        for part in self._wildcards.split(query):
-            if part == '*':
-                pattern_parts.append('.*?')
-            elif part == '%':
-                pattern_parts.append(self._no_delimiter)
-            else:
-                pattern_parts.append(re.escape(part))
-        pattern = '^' + ''.join(pattern_parts) + r'\Z'
-        return re.compile(pattern, re.DOTALL), \
-            re.compile(pattern, re.DOTALL | re.IGNORECASE)
+    def _matches(self, query: str, name: str,
+                 ignore_case: bool = False) -> bool:
+        # Walks the name once, tracking every position of the query that can
+        # have been reached: ``*`` takes any character, ``%`` any character
+        # but the delimiter. The cost is the product of the two lengths, where
+        # a backtracking regular expression is exponential in the wildcards.
+        def closure(positions: set[int]) -> set[int]:
+            todo = list(positions)
+            while todo:
+                pos = todo.pop()
+                if pos < len(query) and query[pos] in '*%' \
+                        and pos + 1 not in positions:
+                    positions.add(pos + 1)
+                    todo.append(pos + 1)
+            return positions
+        reached = closure({0})
+        for char in name:
+            after: set[int] = set()
+            for pos in reached:
+                if pos == len(query):
+                    continue
+                expected = query[pos]
+                if expected == '*':
+                    after.add(pos)
+                elif expected == '%':
+                    if char not in self._delimiter:
+                        after.add(pos)
+                elif expected == char or (
+                        ignore_case and expected.lower() == char.lower()):
+                    after.add(pos + 1)
+            if not after:
+                return False
+            reached = closure(after)
+        return len(query) in reached
 
     def list_matching(self, ref_name: str, filter_: str) \
             -> Iterable[ListEntry]:
@@ -213,10 +230,10 @@ class ListTree:
             filter_: Mailbox name with possible wildcards.
 
         """
-        canonical, canonical_i = self._get_pattern(ref_name + filter_)
+        query = ref_name + filter_
         for entry in self.list():
             if entry.name == 'INBOX':
-                if canonical_i.match('INBOX'):
+                if self._matches(query, 'INBOX', True):
                     yield entry
-            elif canonical.match(entry.name):
+            elif self._matches(query, entry.name):
                 yield entry
